@@ -649,8 +649,24 @@ def generate(ctx):
         for t in sorted(cc.ASTRUCTS):
             sigs.append(dict(name="f%d" % len(sigs), res=t, args=[t], ret=["arg", 0]))
             sigs.append(dict(name="f%d" % len(sigs), res=t, args=["int", t, "double"], ret=["const", const_for(rng, t)]))
+        # temporary arrays of structs built from lists of PARTIAL initializers, below / at / above the 512- and 640-byte
+        # alloca thresholds of the two callers (the heap path must clear the block too): each call is preceded by a
+        # same-sized call with every field set, so that a recycled heap block is not zero by accident
+        big = []
+        for t, full, part in (("struct s1", [["int", -1], ["int", -1]], [["int", 7]]),
+                              ("struct s6", [["int", 255], ["int", 65535], ["int", (1 << 64) - 1], ["int", -1]], [["int", 9]])):
+            sz = cc.sizeof(t)
+            sigs.append(dict(name="f%d" % len(sigs), res="int", args=["const %s *" % t, "int"], ret=["const", 0]))
+            for n in sorted({8, 512 // sz, 512 // sz + 1, 640 // sz, 640 // sz + 1, 64, 100, 300}):
+                for items in (full, part, []):
+                    big.append((len(sigs) - 1, ["list", [["list", items]] * n], n * sz))
         calls = []
+        for si, arg, nbytes in big:
+            calls.append(dict(id=len(calls), sig=si, args=[arg, ["int", len(arg[1])]], plen=[nbytes] + [0] * 7,
+                              errno=rng.choice([0, 5]), cats=["valid", "valid"]))
         for si in range(len(sigs)):
+            if any(si == b_[0] for b_ in big):
+                continue
             if sigs[si].get("directed") and b == 0:
                 for v, cat in directed_values(sigs[si]["args"][0]):
                     calls.append(dict(id=len(calls), sig=si, args=[v], plen=[0] * 8, errno=rng.choice([0, 7, 4000]), cats=[cat]))
@@ -681,7 +697,8 @@ def rec_sizes(sig, call):
             out.append(sum(8 if ft == 'long double' else cc.sizeof(ft) for fn, ft in cc.STRUCTS[t]))
         elif k == 'ptr':
             a = call["args"][j] if j < len(call["args"]) else ["null"]
-            out.append(1 + (call["plen"][j] if a[0] not in ("null",) else 0))
+            n = call["plen"][j] if a[0] not in ("null",) else 0
+            out.append(1 + (8 if n > 64 else n))
         elif k == 'fnptr':
             out.append(5)
         else:
@@ -780,7 +797,10 @@ def outcome_key(o):
 
 
 def describe(sig, call):
-    return "%s %s(%s) args=%r" % (sig["res"], sig["name"], ", ".join(sig["args"]), call["args"])
+    a = repr(call["args"])
+    if len(a) > 500:
+        a = a[:480] + " ...(%d chars)" % len(a)
+    return "%s %s(%s) args=%s" % (sig["res"], sig["name"], ", ".join(sig["args"]), a)
 
 
 def single_case(batch, call):
